@@ -9,6 +9,12 @@
 //   clause 2: reading the same types in the same order with the same byte orders gives the originals
 //   clause 3: setEndian in mid-stream: the reference applies each order only to later items
 //
+// On a byte mismatch the harness writes every item of the sequence alone (same stream class, the order
+// that was in force) to name the item that is wrong on its own: key write.<kind>.<ORDER>.<short|long|content>;
+// if every item alone is right the divergence depends on the history: key write.in-sequence.<shape>.
+// Socket: sequences that cause few sends are also run without threads (write, close, read); the others
+// with the writer and the reader running concurrently.
+//
 // Strata: asl's Array<T> operator<< has a fast path for the not-swapped (host) byte order. Stratum A
 // (modes buffer/file/socket) never sends a non-empty array of multi-byte elements down that path;
 // stratum B (modes *_hostorder_arrays) always does, at least once per sequence.
